@@ -46,6 +46,7 @@ class Engine:
         self.prod_index = {}         # (id a, id b) sorted -> term standing for a*b
         self.decided = {}            # id of simplified branch condition -> (term, decision) on this path
         self.bools = {}              # z3 term id -> term, for terms known to take only the values 0/1 on this path
+        self.tokens = []             # terms rendered as text tokens (see SymInt.__str__)
         self.uncertain = False       # a feasibility query came back unknown on this path
         self.notes = []
         self.solver.reset()
@@ -650,7 +651,13 @@ class SymInt:
 
     def __repr__(s):
         return "<sym:%s>" % (str(z3.simplify(s.t))[:60],)
-    __str__ = __repr__
+
+    def __str__(s):
+        if getattr(ENG, "tokenize_str", False):
+            # text-file backends: render as a token that the reader maps back to the term
+            ENG.tokens.append(s.t)
+            return "<<S%d>>" % (len(ENG.tokens) - 1)
+        return repr(s)
 
     def __format__(s, spec):
         return repr(s)
